@@ -183,7 +183,7 @@ def rt3(ctx):
     different segment. The only place that may print it is the romaniser's `+` replacement (`a:[..] > +x`), where the user
     asked for the base letter to be kept. Everywhere else a segment without an exact spelling must stay visible ('\ufffd'),
     or a staged pipeline silently continues with another segment than the single run."""
-    r = RuleResult("RT-3", "the lossy speller get_nearest_grapheme is called only under the romaniser's `+` flag (the second field of AliasParseElement::Replacement); every other rendering path spells exactly or not at all", floor=2)
+    r = RuleResult("RT-3", "the lossy speller get_nearest_grapheme is called only under the romaniser's `+` flag (the second field of AliasParseElement::Replacement); every other rendering path spells exactly or not at all", floor=1)
     lib = ctx.lib
     ctx.fn(lib, NEAREST)
     n = 0
@@ -960,6 +960,36 @@ def flw13(ctx):
             ml = ":".join((b.blocks[hit[0]]["t"].get("loc") or b.loc).split(":")[:2])
             r.report("FLW-13|context_match_option|trial#%d" % k, loc, b.path,
                      "after this trial of the rest of the environment the next repetition of the optional (%s) can be reached without `*pos` being put back: the repetition is looked for behind the partially matched remainder -- `a > e / _(C,0:2)ai` rewrites the first a of `akakai`, its expansion `:{_ai, _Cai, _CCai}:` does not" % ml)
+    # ... and put back to where the *mandatory* repetitions ended, not to where the optional began: a restore that leads on
+    # to further repetitions uses a snapshot taken after the first loop over match_opt_states
+    from engine_flw2 import _single_def
+    loops_m = sorted([(h, set(body)) for h, body in b.cfg.loops if M & set(body)], key=lambda x: x[0])
+    if len(loops_m) >= 2:
+        h1 = loops_m[0][0]
+        after1 = b.cfg.reachable_from(h1)
+        k = 0
+        for bi in sorted(W):
+            for s_ in b.blocks[bi]["s"]:
+                if not (s_["k"] == "assign" and s_["lhs"]["l"] == pl and s_["lhs"]["p"] == ["*"] and s_["rv"].get("k") == "use" and s_["rv"]["op"].get("k") in ("copy", "move")):
+                    continue
+                nxt_reach = b.cfg.reachable_from(bi)
+                if not (M & nxt_reach - {bi}):
+                    continue            # a restore on the way out (mandatory part failed)
+                src = s_["rv"]["op"]["pl"]["l"]
+                for _ in range(6):
+                    d0 = _single_def(b, src)
+                    if d0 is not None and d0.get("k") == "use" and d0["op"].get("k") in ("copy", "move") and not d0["op"]["pl"]["p"] and not b.local_name(src):
+                        src = d0["op"]["pl"]["l"]
+                    else:
+                        break
+                defs = [bj for bj, bl2 in enumerate(b.blocks) for s2 in bl2["s"] if s2["k"] == "assign" and s2["lhs"]["l"] == src and not s2["lhs"]["p"]]
+                fresh = bool(defs) and all(bj in after1 for bj in defs)
+                loc = ":".join((s_.get("loc") or b.loc).split(":")[:2])
+                r.inst("context_match_option: cursor restore #%d before further repetitions uses a snapshot (`%s`) taken after the mandatory repetitions" % (k, b.local_name(src) or "_%d" % src), loc, "ok" if fresh else "report")
+                if not fresh:
+                    r.report("FLW-13|context_match_option|stale-snapshot#%d" % k, loc, b.path,
+                             "after a failed trial of the rest the cursor is reset to `%s`, a snapshot taken before the mandatory repetitions of the optional, and more repetitions follow: the repetition count no longer matches the text consumed -- `_(C,1:2)i` does not match `_CCi`" % (b.local_name(src) or "a temporary"))
+                k += 1
     r.analysed = {"trials": len(T), "repetition_sites": len(M), "cursor_writes": len(W)}
     return r
 
@@ -1990,4 +2020,109 @@ def pur6(ctx):
                              b.local_name(root), "borrowed mutably / reassigned" if muts or len(defs) > 1 else "not the result of parse_rule_groups"))
     if n < 3:
         raise AnchorMissing("PUR-6: %d calls of apply_rule_groups / apply_rules_trace (expected >= 3)" % n)
+    return r
+
+
+# ---------------------------------------------------------------- VAR-3: a syllable variable is bound to the syllable that was matched
+
+def var3(ctx):
+    """`%=1`, `<..>=1`: when a matcher binds a syllable variable it clones `word.syllables[i]`. The matchers advance their
+    cursor past the syllable once it has matched, so `i` must have been read from the cursor *before* any advance --
+    a snapshot such as `cur_syll_index` -- or the next syllable is captured (and past the last one the index panics)."""
+    from engine_flw2 import _single_def
+    r = RuleResult("VAR-3", "in every matcher that binds a syllable variable, the index of the cloned syllable is read from the cursor before the cursor is advanced on any path", floor=3)
+    lib = ctx.lib
+    n = 0
+    for b in lib.bodies:
+        if b.in_test_mod() or not b.blocks or "{closure" in b.path or not b.path.startswith("asca::subrule::SubRule::") or "_match_" not in b.path:
+            continue
+        params = [i + 1 for i, ty in enumerate(b.param_tys or []) if ty == "&mut " + SEGPOS]
+        if not params:
+            continue
+        p = params[0]
+        cfg = b.cfg
+        # advances of the cursor: writes through it, calls that take it by &mut
+        adv = set()
+        for bi, bl in enumerate(b.blocks):
+            if bl.get("cleanup"):
+                continue
+            for s_ in bl["s"]:
+                if s_["k"] == "assign" and s_["lhs"]["l"] == p and s_["lhs"]["p"] and s_["lhs"]["p"][0] == "*":
+                    adv.add(bi)
+            t = bl["t"]
+            if t["k"] == "call":
+                cp = callee_path(t) or ""
+                for k_, a in enumerate(t["args"]):
+                    if a.get("k") in ("copy", "move") and _derives_from_param(b, a["pl"]["l"], {p}) == p:
+                        cb = lib.body(cp)
+                        pty = (cb.param_tys[k_] if cb is not None and k_ < len(cb.param_tys or []) else "")
+                        if cp.endswith("SegPos::increment") or pty == "&mut " + SEGPOS:
+                            adv.add(bi)
+        # bindings: VarKind::Syllable(..) aggregates whose payload is a clone of word.syllables[IDX]
+        for bi, bl in enumerate(b.blocks):
+            for s_ in bl["s"]:
+                if not (s_["k"] == "assign" and s_["rv"].get("k") == "agg" and (s_["rv"].get("adt") or "").endswith("VarKind") and s_["rv"].get("variant") == "Syllable"):
+                    continue
+                op = s_["rv"]["ops"][0]
+                if op.get("k") not in ("copy", "move"):
+                    continue
+                # clone(&<index result>) -> Index::index(&syllables, IDX)
+                l = op["pl"]["l"]
+                idx_local, idx_block = None, None
+                for _ in range(8):
+                    d = _single_def(b, l)
+                    if d is None:
+                        break
+                    if d.get("k") == "call":
+                        dt = d["t"]
+                        dd = dt["callee"].get("def") or ""
+                        if dd.endswith("Clone::clone") or dd.endswith("Deref::deref"):
+                            l = dt["args"][0]["pl"]["l"]
+                            continue
+                        if dd.endswith("Index::index") and len(dt["args"]) == 2 and dt["args"][1].get("k") in ("copy", "move"):
+                            idx_local = dt["args"][1]["pl"]["l"]
+                        break
+                    if d.get("k") == "ref":
+                        l = d["pl"]["l"]
+                        continue
+                    if d.get("k") == "use" and d["op"].get("k") in ("copy", "move"):
+                        l = d["op"]["pl"]["l"]
+                        continue
+                    break
+                if idx_local is None:
+                    continue        # e.g. a syllable assembled in a local (`syll`): its source index is judged where it is read
+                # where is the index read from the cursor?
+                reads = []
+                stack, seen = [idx_local], set()
+                while stack:
+                    x = stack.pop()
+                    if x in seen:
+                        continue
+                    seen.add(x)
+                    for bj, bl2 in enumerate(b.blocks):
+                        for s2 in bl2["s"]:
+                            if s2["k"] == "assign" and s2["lhs"]["l"] == x and not s2["lhs"]["p"] and s2["rv"].get("k") == "use":
+                                o = s2["rv"]["op"]
+                                if o.get("k") in ("copy", "move"):
+                                    if o["pl"]["l"] == p and o["pl"]["p"] and o["pl"]["p"][0] == "*":
+                                        reads.append(bj)
+                                    elif not o["pl"]["p"]:
+                                        stack.append(o["pl"]["l"])
+                if not reads:
+                    continue
+                n += 1
+                after_adv = set()
+                for a_ in adv:
+                    for nx in cfg.succ[a_]:
+                        after_adv |= cfg.reachable_from(nx)
+                late = [bj for bj in reads if bj in after_adv]
+                loc = ":".join((s_.get("loc") or b.loc).split(":")[:2])
+                short = b.path.rsplit("::", 1)[-1]
+                r.inst("%s: the syllable bound to the variable is indexed by a cursor value read before any advance" % short, loc, "ok" if not late else "report")
+                if late:
+                    r.report("VAR-3|%s|index-read-after-advance" % short, loc, b.path,
+                             "%s binds the variable to `word.syllables[..]` at an index read from the cursor after the cursor has been advanced past the matched syllable: the *next* syllable is captured (`<..>=1 > 1` turns `ka.ta` into `ta.ta`), and when the match ends the word the index is out of bounds (`<ka>=1 > *` on `ta.ka` panics)" % short)
+    if n < 3:
+        raise AnchorMissing("VAR-3: %d syllable-variable bindings indexed from the cursor found (expected >= 3)" % n)
+    r.analysed = {"bindings": n}
     return r
